@@ -216,7 +216,7 @@ def render_c(root, out, opts, lookup, omit):
 
 def main():
     args = parse_args(PROP)
-    run = report.Run(PROP, "bounded", "./check C06", args.tier)
+    run = report.Run(PROP, "other", "./check C06", args.tier)
     n = relational(run)
     total = bounded_build(run, args)
     run.notes["relational_obligations"] = n
